@@ -55,6 +55,7 @@ type TreeShapeListener struct {
 
 	linter                *linterRecords
 	fieldname             []string
+	inplaceFieldnameLen   []int
 	urlPrefixes           PathStack
 	app_name              PathStack
 	annotation            *nameWithContext
@@ -642,6 +643,7 @@ func (s *TreeShapeListener) makeAttributeArray(attribs *parser.Attribs_or_modifi
 // EnterInplace_tuple is called when production inplace_tuple is entered.
 func (s *TreeShapeListener) EnterInplace_tuple(*parser.Inplace_tupleContext) {
 	s.currentTypePath.Push(s.fieldname[len(s.fieldname)-1])
+	s.inplaceFieldnameLen = append(s.inplaceFieldnameLen, len(s.fieldname))
 	s.typemap = map[string]*sysl.Type{}
 	s.currentApp().Types[s.currentTypePath.Get()] = &sysl.Type{
 		Type: &sysl.Type_Tuple_{
@@ -656,6 +658,10 @@ func (s *TreeShapeListener) EnterInplace_tuple(*parser.Inplace_tupleContext) {
 func (s *TreeShapeListener) ExitInplace_tuple(*parser.Inplace_tupleContext) {
 	s.currentTypePath.Pop()
 	s.typemap = attributesForType(s.currentApp().Types[s.currentTypePath.Get()])
+	// the names of the nested fields belong to the in-place tuple, not to the enclosing type
+	top := len(s.inplaceFieldnameLen) - 1
+	s.fieldname = s.fieldname[:s.inplaceFieldnameLen[top]]
+	s.inplaceFieldnameLen = s.inplaceFieldnameLen[:top]
 }
 
 // EnterField is called when production field is entered.
